@@ -3,6 +3,7 @@ import json, os, re
 from .. import env, coq, gen, apigen
 from ..apigen import File
 from . import c11_util as U
+from .c15 import osnake      # the oracle's own snake-casing (a character loop, no regex, no /repo)
 
 RULE = ("(a) pure cases: option strings composed from known flags, python-gapic- options, unknown options, repeated keys, values "
         "containing '=', blanks; package sets (0..3 namespace segments, versions v1/v1beta1/v1p1beta1/v2alpha/none/odd, several "
@@ -203,7 +204,7 @@ def filename_checks(ctx, cases, feature="filename"):
 
 
 # ------------------------------------------------------------------ API.build on skeletons
-FNAMES = ["_shared", "__private", "_shared", "k8s_min", "k8s.min", "k8s_min", "k8s.min", "library", "resources", "My-File", "foo.bar", "class", "CamelCase2FA", "metadata", "import", "HTTPApi", "a_b", "x.y.z",
+FNAMES = ["Import", "Class", "my-types", "my_types", "transport", "import_", "Import", "my-types", "_shared", "__private", "_shared", "k8s_min", "k8s.min", "k8s_min", "k8s.min", "library", "resources", "My-File", "foo.bar", "class", "CamelCase2FA", "metadata", "import", "HTTPApi", "a_b", "x.y.z",
           "request", "lambda", "Types", "service2", "class_", "__init__"]
 
 
@@ -302,7 +303,8 @@ def run_pure(ctx):
 # ------------------------------------------------------------------ end to end: requests
 # (file stem -> module name the generator must give it): fixed reference table, not computed by the model or by /repo
 # k8s_min / k8s.min: the dotted name is sanitised to k8s_min, which is taken when k8s_min.proto comes first -> k8s_min_
-FILE_POOL = [("k8s_min", "k8s_min"), ("k8s.min", "k8s_min"), ("_shared", "_shared"), ("__private", "__private"), ("library", "library"), ("resources", "resources"), ("My-File", "my-_file"), ("foo.bar", "foo_bar"), ("class", "class_"),
+FILE_POOL = [("k8s_min", "k8s_min"), ("k8s.min", "k8s_min"), ("my-types", "my_types"), ("my_types", "my_types"), ("Import", "import_"),
+             ("Class", "class_"), ("transport", "transport_"), ("_shared", "_shared"), ("__private", "__private"), ("library", "library"), ("resources", "resources"), ("My-File", "my_file"), ("foo.bar", "foo_bar"), ("class", "class_"),
              ("CamelCase2FA", "camel_case_2fa"), ("metadata", "metadata_"), ("import", "import_"), ("HTTPApi", "http_api"),
              ("a_b", "a_b"), ("x.y.z", "x_y_z"), ("request", "request_"), ("Types", "types"), ("service2", "service2")]
 SVC_POOL = [("_Internal", "_internal"), ("Library", "library"), ("BigQueryAdmin", "big_query_admin"), ("IAM", "iam"), ("Aux2B", "aux_2b"), ("X", "x"),
@@ -342,6 +344,20 @@ def gen_request(r, defect=None):
         us = [x for x in FILE_POOL if x[0].startswith("_")]
         stems = r.sample(us, r.randint(1, 2)) + [x for x in stems if not x[0].startswith("_")][:1]
         r.shuffle(stems)
+    if defect == "reserved":
+        rs = [x for x in FILE_POOL if x[0] in ("Import", "Class", "transport", "my-types", "my_types", "My-File")]
+        stems = r.sample(rs, r.randint(2, 3))
+        if r.random() < 0.5:
+            stems = [x for x in stems if x[0] not in ("my-types", "my_types")][:1] + r.sample([FILE_POOL[2], FILE_POOL[3]], 2)
+    # two target files whose module names coincide are only generated for the pairs whose PATHS collide after sanitising
+    # (k8s_min / k8s.min, my_types / my-types: the second gets a trailing underscore); files differing only by letter case
+    # (class.proto / Class.proto) silently share one module: reported as a finding, not generated
+    kept = []
+    for x in stems:
+        clash = [y for y in kept if y[1] == x[1]]
+        if not clash or all({x[0], y[0]} in ({"k8s_min", "k8s.min"}, {"my-types", "my_types"}) for y in clash):
+            kept.append(x)
+    stems = kept
     if defect is None and r.random() < 0.08:
         defect = r.choice(["nested", "prefixdep"])
     svcs = r.sample(SVC_POOL, r.randint(0, 3))
@@ -472,12 +488,12 @@ def reference(case):
         root = "/".join(ns + [name + ("_" + version if version else "")])
     # file names that collide once dots are replaced (k8s_min.proto, k8s.min.proto) get a trailing underscore, in request order
     import keyword
-    reserved = set(keyword.kwlist) | {"metadata", "retry", "timeout", "request"}
+    reserved = set(keyword.kwlist) | {"metadata", "retry", "timeout", "request", "transport"}
     seen, extra = set(), {}
     for fp in req.proto_file:
         d, _, b = fp.name.rpartition("/")
-        san = b[:-len(".proto")].replace(".", "_")
-        if san in reserved:
+        san = b[:-len(".proto")].replace(".", "_").replace("-", "_")
+        if san in reserved or osnake(san) in reserved:
             san += "_"
         n = 0
         while (d, san) in seen:
@@ -717,6 +733,7 @@ def run(ctx):
     cases += [c for c in (make_case("C11-e2e-ads", i, "ads") for i in range(ctx.n(4, 40))) if c]
     cases += [c for c in (make_case("C11-e2e-underscore", i, "underscore") for i in range(ctx.n(3, 30))) if c]
     cases += [c for c in (make_case("C11-e2e-nomsg", i, "nomsg") for i in range(ctx.n(3, 30))) if c]
+    cases += [c for c in (make_case("C11-e2e-reserved", i, "reserved") for i in range(ctx.n(4, 30))) if c]
     checks = run_e2e(ctx, cases)
     eval_e2e(ctx, checks, "c11e2e", len(cases))
 
